@@ -57,7 +57,7 @@ TREES = [
 ]
 BEGIN_SPELL = {"g": ["begin group", "begin_group"], "r": ["begin repeat", "begin_repeat", "begin lgroup", "begin looped group"]}
 END_SPELL = {"g": ["end group", "end_group"], "r": ["end repeat", "end_repeat", "end lgroup", "end looped group"]}
-F25_TYPES = ["select_one age_group", "select_multiple repeat_reasons", "select_one groups", "select_one_from_file groups.csv",
+F25_TYPES = ["select_one age_group", "select_multiple repeat_reasons", "select_one groups", "select_one_from_file mygroups.csv",
              "select_one repeat"]
 PLAIN_TYPES = ["text", "integer", "decimal", "select_one lst", "calculate", "date", "geopoint", "select_multiple lst", "note"]
 
